@@ -1,5 +1,6 @@
 """C15 — OpenMP conditional-compilation lines: parsed when enabled, comments otherwise."""
 import random
+import re
 from fv import real, gen, layout, treeutil, engine, findings
 from fv.props import util
 from fv.gen import St, Blk
@@ -39,7 +40,16 @@ def free_text(p, S, rng, omp_lines=True):
         txt = st.text()
         if st in S:
             toks = txt.split(" ")
-            if len(toks) > 4 and rng.random() < 0.6:
+            lit = re.search(r"'[^'&!]{5,}'", txt)
+            if lit and rng.random() < 0.5:
+                # the conditional statement's character literal continued over the line break:
+                # the continuation line carries the sentinel as well, then `&` + rest of the literal
+                pos = rng.randint(lit.start() + 2, lit.end() - 3)
+                lines.append(rng.choice(["!$ ", " !$ "]) + txt[:pos] + "&")
+                if rng.random() < 0.25:
+                    lines.append("   ! comment between the halves of a literal")
+                lines.append(rng.choice(["!$ &", "!$&", "!$   &"]) + txt[pos:])
+            elif len(toks) > 4 and rng.random() < 0.6:
                 npieces = 3 if len(toks) > 7 and rng.random() < 0.4 else 2
                 cuts = sorted(rng.sample(range(1, len(toks)), npieces - 1))
                 parts = [" ".join(toks[a:b]) for a, b in zip([0] + cuts, cuts + [len(toks)])]
